@@ -4,13 +4,14 @@ from rulelib import *
 from factbase import AnchorError, op_place, op_const
 
 TITLE = "Signed generated files verify, and any edit breaks the signature"
-TECHNIQUE = "sibling cross-check (sign vs verify substitution multiplicity), dataflow and constant-table rules over MIR"
+TECHNIQUE = "sibling cross-check (sign vs verify substitution multiplicity), dataflow, constant-table and CFG must-pass-through (every accepting path recomputes the digest) rules over MIR"
 EXPLANATION = (
     "sign and is_valid_signature are two implementations of one substitution and must agree: sign replaces every "
     "occurrence of the token (str::replace), so the verifier must substitute every signature back (Regex::replace_all, "
     "not the first-match Regex::replace); the value hashed when signing is the whole input and when verifying the "
     "whole input with only the signature substituted; the slice offsets that cut the digest out of the match equal the "
-    "lengths of the literal prefix and suffix of the signature regex (read from the regex literal). Collision "
+    "lengths of the literal prefix and suffix of the signature regex (read from the regex literal); every path of the "
+    "verifier that does not answer false passes through the digest computation (no cached or shortcut verdict). Collision "
     "resistance of MD5 is not decided.")
 ASSUMPTIONS = ["regex::Regex::replace substitutes the first match only and replace_all every match (documented behaviour)"]
 
@@ -91,6 +92,24 @@ def run(cx):
     eqs = [t for t in ver.calls() if re.search(r"PartialEq(<.*>)?>?::(eq|ne)$", t.declared or "")]
     cx.ob("R33.hash-covers-input", ver.id + "|compares-digest", len(eqs) >= 1,
           "the recomputed digest must be compared with the embedded one", ver.loc())
+    # ---- R33.verdict-from-digest: no path to a result other than `false` bypasses the digest ------------------------
+    # is_valid_signature must be a function of the text alone: every path from entry to return either recomputes the
+    # digest (calls hash) or answers `false`.  A path that answers from anything else (a cache, the length, the
+    # embedded signature alone) accepts some edited file.
+    hb = set(blocks_calling(ver, HRX))
+    falseb = set()
+    for b in ver.blocks:
+        for s_ in b.stmts:
+            if s_.dst is not None and s_.dst.local == 0 and not s_.dst.proj and s_.rv == "use" and s_.ops:
+                c = op_const(s_.ops[0])
+                if c and c.get("ty") == "bool" and c.get("v") is False:
+                    falseb.add(b.i)
+    rets = [b.i for b in ver.blocks if b.term.op == "return"]
+    pth = path_without(ver, 0, rets, hb | falseb)
+    cx.ob("R33.verdict-from-digest", ver.id + "|every-accepting-path-recomputes-digest", bool(hb) and pth is None,
+          "a path through is_valid_signature returns without recomputing the digest and without answering false (%s): "
+          "the verdict on that path does not depend on the text, so an edit of an accepted file is not detected" % (
+              fmt_path(ver, pth) if pth else "no call to the hash function"), ver.loc())
     # every function hashing uses md5 over the data argument
     h = H
     upd = [t for t in h.calls() if re.search(r"Update>?::update$|Digest>?::update$", t.declared or t.callee or "")]
